@@ -108,8 +108,10 @@ def gen_docs(c, delim):
                 out += body[len(out):len(out) + k].replace(b"\n", b"x").ljust(k, b"y") + b"\n"
             assert b"\n\n" not in out and not out.startswith(b"\n")
             cases.append([bytes(out), b"tail\n"])
+            cases.append([b"head\n", bytes(out), b"mid\n", bytes(out[:6200]).rsplit(b"\n", 1)[0] + b"\n", b"tail\n"])
         else:
             cases.append([body, b"tail"])
+            cases.append([b"head", body, b"mid", body[:6200], b"tail"])
     # targeted: CR at end of line, a line that is only CR, CR before separator, empty docs, many docs
     if delim == 10:
         cases += [[b"a\r\nb\n"], [b"x\n\r\ny\n"], [b"\r\n"], [b"", b"a\n", b""], [b"a\n"] * 7, [b""], []]
@@ -227,6 +229,48 @@ def docenc_tool(c, drv):
                 c.broken.append("correspondence docenc model vs bin/docenc: case %r (argv %s): model=%s impl=%s" % (ml[:120], " ".join(argv[1:]), mo[:120], io[:120]))
 
 
+def b64_line_tools(c):
+    """base64_number and remove_invalid_utf8_base64 (both reuse one output string across lines):
+    independent Python oracles on the real binaries."""
+    rng = c.rng
+    for _ in range(25 if c.tier == "quick" else 250):
+        docs = []
+        for _ in range(rng.randrange(1, 7)):
+            kind = rng.random()
+            if kind < 0.25:
+                docs.append(b"")
+            elif kind < 0.5:
+                docs.append(bytes(rng.choice(b"ab\t\n \xc3\xa9") for _ in range(rng.randrange(1, 30))))
+            elif kind < 0.75:
+                docs.append(bytes(rng.randrange(256) for _ in range(rng.randrange(1, 12))))      # mostly invalid UTF-8
+            else:
+                docs.append("".join(rng.choice("xyz\u20ac\U0001f600\n\t") for _ in range(rng.randrange(1, 15))).encode("utf-8"))
+        inp = b"".join(pyb64.b64encode(d) + b"\n" for d in docs)
+        c.count(("b64-line-tools", inp), nontrivial=True, bucket="base64_number+remove_invalid_utf8_base64")
+        # base64_number: each non-empty line of each document (tabs -> spaces) + TAB + 0-based document number
+        st, out, err = run_tool([repo_bin("base64_number")], inp, timeout=20)
+        want = b""
+        for i, d in enumerate(docs):
+            for l in d.replace(b"\t", b" ").split(b"\n"):
+                if l:
+                    want += l + b"\t" + str(i).encode() + b"\n"
+        if st != 0 or out != want:
+            c.violation("base64_number: documents %r gave %r (status %s), expected %r" % (docs, out[:200], st, want[:200]),
+                        {"op": "base64_number", "input_hex": hexs(inp), "output_hex": hexs(out), "expected_hex": hexs(want), "status": st})
+        # remove_invalid_utf8_base64: a line is kept iff its document is well-formed UTF-8, else replaced by an empty base64 line
+        st, out, err = run_tool([repo_bin("remove_invalid_utf8_base64")], inp, timeout=20)
+        want = b""
+        for d in docs:
+            try:
+                d.decode("utf-8", "strict")
+                want += pyb64.b64encode(d) + b"\n"
+            except UnicodeDecodeError:
+                want += b"\n"
+        if st != 0 or out != want:
+            c.violation("remove_invalid_utf8_base64: documents %r gave %r (status %s), expected %r" % (docs, out[:200], st, want[:200]),
+                        {"op": "remove_invalid_utf8_base64", "input_hex": hexs(inp), "output_hex": hexs(out), "expected_hex": hexs(want), "status": st})
+
+
 def replay(c):
     """bin/check C09 --replay file: re-run the recorded input on the current tree."""
     import json
@@ -266,7 +310,7 @@ def main(argv):
     c = Check("C09", argv)
     if c.replay:
         return replay(c)
-    ok, blog = build_repo(["hx_base64", "docenc"])
+    ok, blog = build_repo(["hx_base64", "docenc", "base64_number", "remove_invalid_utf8_base64"])
     if not ok:
         c.broken.append("build of /repo working tree failed: " + blog[-800:])
         return c.finish(rule="build failed")
@@ -275,6 +319,16 @@ def main(argv):
     impl = hx_bin("hx_base64")
     enc, dec = gen_cases(c)
     lines = ["E " + hexs(b) for b in enc] + ["D " + hexs(b) for b in dec]
+    # the caller's output string is reused across calls (base64_number, remove_invalid_utf8_base64 do that)
+    reuse = []
+    for _ in range(300):
+        a = pyb64.b64encode(bytes(c.rng.randrange(256) for _ in range(c.rng.randrange(0, 40))))
+        b = pyb64.b64encode(bytes(c.rng.randrange(256) for _ in range(c.rng.randrange(0, 40))))
+        if c.rng.random() < 0.2:
+            a = a[:-1] + b"!"          # first call fails half-way
+        reuse.append("D2 %s %s" % (hexs(a) or "-", hexs(b) or "-"))
+        reuse.append("E2 %s %s" % (hexs(pyb64.b64decode(b)) or "-", hexs(a[:7]) or "-"))
+        c.count(("reuse", a, b), nontrivial=True, bucket="reuse-output-string")
     for b in enc:
         c.count(("E", b), nontrivial=len(b) > 0, bucket="encode/len%3=" + str(len(b) % 3))
     for b in dec:
@@ -288,7 +342,7 @@ def main(argv):
     if drv is None:
         c.broken.append("extraction/driver build failed: " + dlog[-600:])
     else:
-        correspond(c, "base64 model vs preprocess/base64.cc", drv, impl, lines)
+        correspond(c, "base64 model vs preprocess/base64.cc", drv, impl, lines + reuse)
 
     # --- direct property oracles on the implementation (the search)
     rc, out, err = run_lines(impl, lines)
@@ -320,6 +374,7 @@ def main(argv):
                         c.violation("roundtrip: decode(%r) gave %s expected %s" % (b, o, hexs(raw)),
                                     {"op": "decode", "input_hex": hexs(b), "impl": o, "expected_hex": hexs(raw)})
     docenc_tool(c, drv)
+    b64_line_tools(c)
     from coqchk import thorough_coqchk
     thorough_coqchk(c)
     return c.finish(level="proof",
